@@ -59,6 +59,7 @@ fn main() {
             "C10" => checks::c10::replay(&v),
             "C12" => checks::c12::replay(&v),
             "C13" => checks::c13::replay(&v),
+            "C14" => checks::c14::replay(&v),
             "C15" => checks::c15::replay(&v),
             "C09" => checks::c09::replay(&v),
             "C11" => checks::c11::replay(&v),
@@ -86,6 +87,7 @@ fn main() {
         "C10" => checks::c10::run(tier, seed),
         "C12" => checks::c12::run(tier, seed),
         "C13" => checks::c13::run(tier, seed),
+        "C14" => checks::c14::run(tier, seed),
         "C15" => checks::c15::run(tier, seed),
         "C09" => checks::c09::run(tier, seed),
         "C11" => checks::c11::run(tier, seed),
